@@ -33,7 +33,7 @@ m = {
     "hooks": {
         "guard": "cargo feature `verif` of crate mmtk",
         "enable": "harness crates depend on mmtk = { path = \"/repo\", features = [\"verif\", \"test_private\", ...] }; no RUSTFLAGS",
-        "baseline_off_cmd": "cd /repo && cargo test --workspace --no-fail-fast --offline",
+        "baseline_off_cmd": "cd /repo && cargo nextest run --workspace --no-fail-fast --tool-config-file pb:/w/lib/nextest.toml --profile pb --test-threads 8 --offline",
         "source_commits": list(reversed(hook_commits)),
         "add_only": True,
     },
